@@ -4,6 +4,7 @@ Model: KV.Comm.getTriu / fillTriu / checkShape / the three communicator entry po
 (kfac/distributed.py).  Property theorems only; helpers in Lemmas/Triu.lean.
 -/
 import KfacVerif.Lemmas.Triu
+import KfacVerif.Lemmas.TriuPoly
 
 namespace KV.C14
 open KV KV.Comm
@@ -64,5 +65,50 @@ theorem rejects_before_communication (s : CState) (g : Key) (tid : Nat) (shape :
     broadcast s g tid shape true src = (s, [], .err .nonSquare) := by
   have hc := checkShape_nonsquare shape h
   simp [allreduceBucketed, allreduce, broadcast, hg, hc]
+
+/-! ## the packing only MOVES entries: every payload type
+
+`getTriuP`, `fillTriuP`, `SquareP`, `SymmP` (Lemmas/TriuPoly.lean) are the definitions of the model with
+the entry type left open; the executable Int-valued model compared with the code on every run is their
+instance at `Int` (`getTriu_is_poly`, `fillTriu_is_poly`).  So "every dtype" — including entries no
+arithmetic is exact for: infinities, NaN payloads, signed zeros — is a theorem, and the bit-exact
+extreme-value stream of the check is its tie to the code. -/
+section AnyPayload
+
+/-- the Int-valued executable model is the polymorphic packing at `α := Int` -/
+theorem getTriu_is_poly (A : Mat) : getTriu A = getTriuP A := by
+  exact getTriu_eq_P A
+
+theorem fillTriu_is_poly (n : Nat) (v : List Int) : fillTriu n v = fillTriuP (0 : Int) n v := by
+  exact fillTriu_eq_P n v
+
+/-- **every dtype, every payload**: for ANY type of entries (floats of any width incl. infinities,
+    NaN payloads and signed zeros, integers, …) packing the upper triangle of a symmetric `n × n`
+    matrix and unpacking it gives back the very same entries -/
+theorem fill_get_any_payload {α : Type} (d : α) {A : List (List α)} {n : Nat}
+    (hA : SquareP A n) (hS : SymmP d A n) : fillTriuP d n (getTriuP A) = A := by
+  exact fill_getP d hA hS
+
+theorem get_fill_any_payload {α : Type} (d : α) {n : Nat} {v : List α} (hv : v.length = n * (n + 1) / 2) :
+    getTriuP (fillTriuP d n v) = v := by
+  exact get_fillP d hv
+
+/-- packing commutes with any entrywise map (a dtype conversion, a scaling): it is natural in the
+    payload type -/
+theorem getTriu_map {α β : Type} (f : α → β) (A : List (List α)) :
+    getTriuP (A.map (List.map f)) = (getTriuP A).map f := by
+  exact getTriuP_map f A
+
+theorem fillTriu_map {α β : Type} (f : α → β) (d : α) (n : Nat) (v : List α) (hv : v.length = n * (n + 1) / 2) :
+    fillTriuP (f d) n (v.map f) = (fillTriuP d n v).map (List.map f) := by
+  exact fillTriuP_map f d n v
+
+/-- non-vacuity with a payload type that has no arithmetic at all -/
+example : fillTriuP "?" 3 (getTriuP [["a", "b", "c"], ["b", "d", "e"], ["c", "e", "f"]])
+    = [["a", "b", "c"], ["b", "d", "e"], ["c", "e", "f"]] := by
+  decide
+
+
+end AnyPayload
 
 end KV.C14
